@@ -677,6 +677,12 @@ class FileCache(ProxyValue):
         # User defined deserialization.
         return pickle_loads(data)
 
+    def get_hash(self, data: Optional[bytes] = None) -> str:
+        # The serialization of a FileCache value (`data`) is only the name of its cache file.
+        # Always hash the value itself, so that the hash a value is recorded under is the hash
+        # it has everywhere else (and the hash of the value that is read back).
+        return super().get_hash()
+
     def serialize(self) -> bytes:
         from redun.file import File
 
